@@ -50,7 +50,7 @@ class _KindDifferences:
         'TypeError: NotImplemented returned from __array_ufunc__/__array_function__ (logical/bitwise ops and all/any on non-bool, axis tuples for all/any)',
         'TypeError: unexpected keyword / missing positional argument (NumPy keywords nutils does not take: dtype, out, where, keepdims, mode, prod without axis, repeat without axis ...)',
         'ValueError: sum() axis-mandatory transition error of Array.sum',
-        "ValueError: 'axis lengths do not match' (diagonal/trace of non-square axis pairs), 'dimension must be 2 or 3' (cross), 'expected a condition of length' (compress, documented stricter), 'cannot broadcast shapes' for vdot of equal-size different-shape operands",
+        "ValueError: 'axis lengths do not match' (diagonal/trace of non-square axis pairs), 'dimension must be 2 or 3' (cross), 'expected a condition of length' (compress, documented stricter)",
     ]
 
     @staticmethod
@@ -79,7 +79,6 @@ DOCUMENTED_REFUSALS = [
     ('axis lengths do not match', r'axis lengths do not match'),
     ('cross dimension', r'dimension must be 2 or 3'),
     ('compress stricter', r'expected a condition of length'),
-    ('vdot shapes', r'cannot broadcast shapes'),
     ('einsum subscripts form', r'first einsum argument must be a string'),
     ('basis mask must be increasing', r'`indices` should be strictly monotonic increasing'),
     ('basis mask out of range', r'`indices` out of range'),
@@ -616,8 +615,11 @@ class VDot(Contraction):
     def gen(self, g):
         a = g.operand('bifc', ndim=(0, 3))
         shape = a.shape
-        if g.rng.random() < .05 and len(shape) == 2 and shape[0] != shape[1]:
-            shape = shape[::-1]      # equal size, different shape: numpy ravels, nutils refuses (documented: broadcast error)
+        r = g.rng.random()
+        if r < .2 and len(shape) >= 2 and len(set(shape)) > 1:
+            shape = shape[::-1]      # equal size, different shape: numpy ravels both operands
+        elif r < .3 and len(shape) >= 1:
+            shape = (int(numpy.prod(shape, dtype=int)),)
         b = g.shaped('bifc', shape)
         g.note_dtypes('vdot', [a, b])
         return 'func', [a.id, b.id], {}
@@ -701,7 +703,7 @@ class Cross(Op):
         rng = g.rng
         form = rng.choice(['func', 'func', 'axis', 'axes'])
         batch = tuple(int(n) for n in rng.integers(1, 4, size=int(rng.integers(0, 3))))
-        kinds = 'i' if rng.random() < .05 else 'fc' if rng.random() < .8 else 'ifc'     # all-int operands: known finding C07-cross-int-float
+        kinds = 'i' if rng.random() < .15 else 'ifc'
         if form == 'func':
             a = g.shaped(kinds, batch + (3,))
             b = g.shaped(kinds, g.compatible_shape(batch, maxndim=len(batch)) + (3,))
@@ -834,7 +836,7 @@ class DetInv(Op):
         return float(a.scale) ** n * math.factorial(min(n, 4))
 
     def gen(self, g):
-        x = g.square_operand('ifc' if g.rng.random() < .06 else 'fc', dist='diagdom')    # int operands: known finding C07-det-inv-int
+        x = g.square_operand('ifc', dist='diagdom')
         g.note_dtypes(self.name, [x])
         return 'func', [x.id], {}
 
